@@ -165,3 +165,4 @@ theorem refutes_sound (axs : List Ax) (u d : GF) (t : List Nat) (h : refutes axs
   · simp only [refutes, Bool.and_eq_true, Bool.not_eq_true'] at h; exact h.2
 
 end TmVerif.Guards
+
